@@ -16,7 +16,7 @@ RULE = (
     "arguments, ternaries; each is parsed, serialised, re-parsed, re-serialised and both templates are rendered over "
     "generated data sets; the real str() is compared with the Lean model printer on the tree extracted from the real "
     "parse. stream bool: every logical expression with <= k operators over and/or/not/==/</contains and 2-3 variables "
-    "(exhaustive), all valuations over {true,false,1,'x'}. stream strlit: every string over an 8-character alphabet "
+    "(exhaustive), all valuations over {true,false,1,'x'} (2 variables) or {true,false,1} (3 variables). stream strlit: every string over an 8-character alphabet "
     "(quotes, backslash, newline, braces) up to length 4-5 (exhaustive). stream path: every path of <= 3 segments over "
     "word/keyword/quoted/backslash/quote/index/nested segments (exhaustive). stream parse: random token lists (mostly "
     "malformed) through the real logical-expression parser and the model parser. stream known: the witnesses of the known "
@@ -704,7 +704,7 @@ class TmplStream(Stream):
         self.parallel = ctx.tier == "thorough"  # quick tier is a few seconds sequentially; forking 16 workers costs more
         rng = ctx.rng_for("tmpl")
         out = []
-        n = ctx.scale(2500, 40000)
+        n = ctx.scale(2500, 30000)
         for i in range(n):
             g = Gen(rng)
             src = g.template()
@@ -834,7 +834,7 @@ class BoolStream(Stream):
         obs["text2"] = str(t2.nodes[0].condition)
         n = case["natoms"]
         diffs = 0
-        for vs in itertools.product(VALS, repeat=n):
+        for vs in itertools.product(VALS if n < 3 else VALS[:3], repeat=n):
             d = {f"a{i}": v for i, v in enumerate(vs)}
             if render_obs(t, d) != render_obs(t2, d):
                 diffs += 1
